@@ -135,7 +135,8 @@ CHECKS = {
              "tiny, huge), checksum-valid adversarial contents (WT count, path length, data length, path, record type); "
              "a fresh process performs the production start-up replay; oracle: exit 0 without panic/hang, no tag of a "
              "transaction whose data bytes changed appears, every intact committed transaction ending before the first "
-             "changed byte is applied; non-trivial = mutation that changes a TGDATA record or a length/ordering",
+             "changed byte is applied (its value is in the bucket, or that of a later undamaged transaction to the same fixed-length "
+             "interval: re-application follows commit order); non-trivial = mutation that changes a TGDATA record or a length/ordering",
         assumptions=["one transaction group per write request (sync mode) so that WAL byte ranges map to requests"],
     ),
     "C35": dict(
